@@ -27,10 +27,13 @@ Definition mon_status (sn : eds_snapshot) (e : eds) (cspec : canary_spec) (u : e
               code_if (negb changed || forallb (fun nn => negb (valid_nodeb sn cspec u nn) || memN nn nodes') prev) 12 ++
               code_if (negb changed || subsetNb nodes' prev || (zlen nodes' <=? nb)) 13 ++
               (* fewer nodes than requested: only together with a reported error, and only when no valid candidate
-                 was left out (without anti-affinity keys, which may legitimately reject candidates) *)
+                 was left out (without anti-affinity keys, which may legitimately reject candidates; and unless the selection
+                 could not read its lists) *)
               code_if ((nb <=? zlen nodes') || reported_error) 14 ++
-              code_if ((nb <=? zlen nodes') || negb (Nat.eqb (length (ca_antiaffinity cspec)) 0) ||
+              code_if ((nb <=? zlen nodes') || negb (Nat.eqb (length (ca_antiaffinity cspec)) 0) || es_fail_list_cluster sn ||
                        forallb (fun n => negb (fit (r_tmpl u) n) || memN (n_name n) nodes') (canary_candidate_nodes sn cspec)) 18 ++
+              (* no blind selection: when the pods (restart counts) or the nodes could not be listed, nothing is added *)
+              code_if (negb (es_fail_list_cluster sn) || subsetNb nodes' prev) 19 ++
               (* least restarts, without anti-affinity keys: an added node has no more restarts than any
                  valid candidate left out *)
               code_if (negb changed || negb (Nat.eqb (length (ca_antiaffinity cspec)) 0) ||
